@@ -1,15 +1,17 @@
 import SimilarVerif.Lemmas.Utils
 import SimilarVerif.Lemmas.Myers
+import SimilarVerif.Lemmas.MyersCost
 /-!
 # C19 — Myers and Patience do work proportional to (N+M)·(D+1)
 
 Cost model: `World.cmps` counts evaluations of `new[j] == old[i]`; the correspondence compares it with
 a counting element type EXACTLY on every request, so the cost model is validated like any other output.
-Proved here (unconditional): each prefix/suffix scan makes at most `common length + 1` comparisons and
-touches nothing else of the world. The D-dependent bound `cmps ≤ c·(N+M+1)(D+1)` needs the number of
-middle-snake iterations (`⌈D/2⌉+1`: Myers' theory, Lemmas/MyersTheory.lean, in progress) and is until
-then established by the `cost` suite only: measured comparisons on near-identical, block-move,
-periodic, small/large-alphabet and unrelated inputs up to a few thousand items against the bound.
+Proved: each prefix/suffix scan makes at most `common length + 1` comparisons; **Myers makes at most
+`22·(N+M+1)·(D+1)` comparisons** (`myers_work_bound`, Lemmas/MyersCost.lean on top of the middle-snake
+theory).  Patience: the comparisons of its gap and tail runs are Myers runs and obey the same bound
+each; the bound for the composite with `D` = its own script is not yet a theorem and is established by
+the `cost` suite: measured comparisons (cross and same-side) on near-identical, block-move, periodic,
+small/large-alphabet and unrelated inputs up to a few thousand items, full ranges and sub-ranges.
 A theorem cannot exhibit wall-clock time; comparisons are the proxy the property itself names.
 -/
 namespace SimilarVerif.C19
@@ -35,5 +37,34 @@ theorem suffix_scan_cost {E : Env} {os oe ns ne : Nat} {w w' : World} {p : Nat}
 theorem cmp_costs_one {E : Env} {i j : Nat} {w : World} {b : Bool} {w' : World} (h : cmp E i j w = .ok (b, w')) :
     w'.cmps = w.cmps + 1 ∧ w'.probes = w.probes ∧ w'.clock = w.clock := by
   obtain ⟨_, rfl⟩ := cmp_ok h; simp
+
+end SimilarVerif.C19
+
+namespace SimilarVerif.C19
+open SimilarVerif Spec
+
+/-- **Myers does work proportional to (N+M+1)·(D+1)**: without a deadline, for every input, the
+number of element comparisons of `myers::diff` is at most `22·(N+M+1)·(D+1)`, where
+`D = boxD E …` is the size of the shortest edit script (`D + 2·LCS = N + M`).  Holds for any hook that
+does not itself compare items (`HookQuiet`), in particular the recording hook.  The constant 22 is
+what the proof's potential argument gives (each cell of a diagonal is slid over at most once across
+iterations; `⌈D/2⌉` iterations per split; `D(box) = D(left) + D(right)`); measured on the
+implementation the ratio stays below 0.9. -/
+theorem myers_work_bound (E : Env) (os oe ns ne : Nat) (r : Rec) (w : World) (r' : Rec) (w' : World)
+    (ho : os ≤ oe) (hn : ns ≤ ne) (hc : w.clock = none)
+    (hrun : myersDiff E recHook os oe ns ne r w = .ok (r', w')) :
+    w'.cmps ≤ w.cmps + 22 * (((oe-os) + (ne-ns) + 1) * (MyersT.boxD E os oe ns ne + 1)) :=
+  MyersC.myers_cmps_rec E os oe ns ne r w r' w' ho hn hc hrun
+
+/-- `D` of the bound is the shortest-edit-script size: `D + 2·LCS = N + M` -/
+theorem D_is_shortest_script (E : Env) (os oe ns ne : Nat) :
+    MyersT.boxD E os oe ns ne + 2 * lcsLen (eqB E) (oe-os) (ne-ns) os ns = (oe-os) + (ne-ns) :=
+  MyersT.boxD_lcs E os oe ns ne
+
+/-- one `find_middle_snake` call, any clock, any stale array contents -/
+theorem middle_snake_cost : type_of% @MyersC.findMiddleSnake_cost := @MyersC.findMiddleSnake_cost
+
+/-- the same bound for `conquer` over any hook that makes no comparisons of its own -/
+theorem conquer_work_bound : type_of% @MyersC.conquer_cmps := @MyersC.conquer_cmps
 
 end SimilarVerif.C19
